@@ -4,13 +4,14 @@ import (
 	"fmt"
 	"reflect"
 
+	"github.com/OffchainLabs/go-bitfield"
 	eth2api "github.com/attestantio/go-eth2-client/api"
+	eth2v1 "github.com/attestantio/go-eth2-client/api/v1"
 	eth2bellatrix "github.com/attestantio/go-eth2-client/api/v1/bellatrix"
 	eth2capella "github.com/attestantio/go-eth2-client/api/v1/capella"
 	eth2deneb "github.com/attestantio/go-eth2-client/api/v1/deneb"
 	eth2electra "github.com/attestantio/go-eth2-client/api/v1/electra"
 	eth2fulu "github.com/attestantio/go-eth2-client/api/v1/fulu"
-	eth2v1 "github.com/attestantio/go-eth2-client/api/v1"
 	eth2spec "github.com/attestantio/go-eth2-client/spec"
 	"github.com/attestantio/go-eth2-client/spec/altair"
 	"github.com/attestantio/go-eth2-client/spec/bellatrix"
@@ -18,7 +19,6 @@ import (
 	"github.com/attestantio/go-eth2-client/spec/deneb"
 	"github.com/attestantio/go-eth2-client/spec/electra"
 	eth2p0 "github.com/attestantio/go-eth2-client/spec/phase0"
-	"github.com/OffchainLabs/go-bitfield"
 
 	"github.com/obolnetwork/charon/core"
 	"github.com/obolnetwork/charon/eth2util"
@@ -347,7 +347,9 @@ func (w *world) newAggregate(kind, ver string, claimed *valKeys, vidx eth2p0.Val
 		v := &eth2spec.VersionedSignedAggregateAndProof{Version: versions[ver]}
 		reflect.ValueOf(v).Elem().FieldByName(verField[ver]).Set(reflect.ValueOf(sa))
 		s.vc = v
-		s.parsig = func(idx int) (core.ParSignedData, error) { return core.NewPartialVersionedSignedAggregateAndProof(v, idx), nil }
+		s.parsig = func(idx int) (core.ParSignedData, error) {
+			return core.NewPartialVersionedSignedAggregateAndProof(v, idx), nil
+		}
 	} else {
 		sa := &eth2p0.SignedAggregateAndProof{Message: &eth2p0.AggregateAndProof{AggregatorIndex: vidx, SelectionProof: proof,
 			Aggregate: &eth2p0.Attestation{AggregationBits: testutil.RandomBitList(committeeLen), Data: w.attData(false),
@@ -364,7 +366,9 @@ func (w *world) newAggregate(kind, ver string, claimed *valKeys, vidx eth2p0.Val
 			v := &eth2spec.VersionedSignedAggregateAndProof{Version: dv}
 			reflect.ValueOf(v).Elem().FieldByName(verField[ver]).Set(reflect.ValueOf(sa))
 			s.vc = v
-			s.parsig = func(idx int) (core.ParSignedData, error) { return core.NewPartialVersionedSignedAggregateAndProof(v, idx), nil }
+			s.parsig = func(idx int) (core.ParSignedData, error) {
+				return core.NewPartialVersionedSignedAggregateAndProof(v, idx), nil
+			}
 		}
 	}
 	s.setSig = func(x eth2p0.BLSSignature) { *sigp = x }
@@ -474,7 +478,9 @@ func (w *world) newSignedProposal(kind, ver string, vidx eth2p0.ValidatorIndex) 
 			sigp = &sb.Fulu.Signature
 		}
 		s.vc = &eth2api.SubmitBlindedProposalOpts{Proposal: sb}
-		s.parsig = func(idx int) (core.ParSignedData, error) { return core.NewPartialVersionedSignedBlindedProposal(sb, idx) }
+		s.parsig = func(idx int) (core.ParSignedData, error) {
+			return core.NewPartialVersionedSignedBlindedProposal(sb, idx)
+		}
 	} else {
 		sp := &eth2api.VersionedSignedProposal{Version: p.Version}
 		switch ver {
